@@ -206,6 +206,12 @@ def silence_part(ps):
 @st.composite
 def _decorate(draw, ps, staffless):
     """Missing staves, directions and a slur for one part (in place)."""
+    # voice numbers with gaps / not starting at 1 (e.g. {1, 3} or {2}): an order-preserving renumbering
+    vmap = draw(st.sampled_from([None, None, {1: 1, 2: 3, 3: 4}, {1: 2, 2: 3, 3: 5}, {1: 3, 2: 4, 3: 6}]))
+    if vmap is not None:
+        for n in ps["notes"]:
+            if n.get("voice") is not None:
+                n["voice"] = vmap.get(n["voice"], n["voice"])
     if staffless == "all":
         for n in ps["notes"]:
             n["staff"] = None
